@@ -332,8 +332,8 @@ def run(ctx) -> None:
         run_repo_tests(ctx, ['incomplete_cooperative/tests/test_game.py', 'incomplete_cooperative/tests/test_normalize.py', 'incomplete_cooperative/tests/test_exploitability.py'], 'game')
     rng = ctx.rng
     while not ctx.out_of_time(1.0):
-        n = rng.choice([1, 2, 2, 3, 3, 4, 4, 5])
-        run_sequence(ctx, {"n": n, "seq_seed": rng.randint(0, 2**31), "length": rng.randint(1, 40)})
+        n = rng.choice([1, 2, 2, 3, 3, 4, 4, 5] * 6 + [8, 9])      # beyond 8 players coalition ids leave the 8-bit range
+        run_sequence(ctx, {"n": n, "seq_seed": rng.randint(0, 2**31), "length": rng.randint(1, 40 if n <= 5 else 12)})
 
 
 def replay(ctx, case) -> None:
